@@ -20,6 +20,8 @@ Definition jv_res (r : res) : jv :=
   | RObjs l => JC "Objs" [JL (map jnat l)]
   | RCenti n => JC "Centi" [JZ n]
   | RHash e s => JC "Hash" [jbool e; jbool s]
+  | RGen g => JC "Gen" [jnat g]
+  | RStop => JC "Stop" []
   end.
 
 Definition jv_eff (e : sysc * option Z) : jv := JL [jv_sysc (fst e); jopt JZ (snd e)].
